@@ -96,7 +96,7 @@ inductive Ev
   | missing (v : Vtx)
   | pops (vs : List Vtx)
   | path (vs : List Vtx)
-  | exec (fid nth : Nat) (args : List Val) (res : BehOut)
+  | exec (fid nth : Nat) (args : List PVal) (res : BehOut)
   | res (ts : List String)
 deriving Repr
 
@@ -105,8 +105,8 @@ def parseExec (ts : List String) : Option Ev :=
   | fid :: nth :: rest =>
     let args := ((kv rest "args").getD "").splitOn "," |>.filter (· ≠ "") |>.map (fun a =>
       match a.splitOn ":" with
-      | [i, t] => ({ ty := natOf t, id := natOf i } : Val)
-      | _ => { ty := 0, id := 0 })
+      | [i, t] => ({ ty := natOf t, id := natOf i, org := .root } : PVal)
+      | _ => { ty := 0, id := 0, org := .root })
     let res : BehOut := match kv rest "err" with
       | some "typednil" => { outs := [], err := some 1 }
       | some e => { outs := [], err := some (natOf e) }
@@ -181,7 +181,7 @@ structure Flags where
   skipRecordsInput : Bool := false
 deriving Repr
 
-def behFromTrace (sc : Scn) (execs : List ExecEv) : Nat → Nat → List Val → BehOut :=
+def behFromTrace (sc : Scn) (execs : List ExecEv) : Nat → Nat → List PVal → BehOut :=
   fun fid nth _ =>
     match execs.find? (fun e => e.fid == fid && e.nth == nth) with
     | some e =>
@@ -190,7 +190,7 @@ def behFromTrace (sc : Scn) (execs : List ExecEv) : Nat → Nat → List Val →
       { e.res with outs := e.res.outs ++ List.replicate (n - e.res.outs.length) 0 }
     | none => { outs := [], err := some 424242 }      -- the real code never executed this: shows as a log divergence
 
-def showVal (v : Val) : String := s!"{v.id}:{v.ty}"
+def showVal (v : PVal) : String := s!"{v.id}:{v.ty}"
 def showExec (e : ExecEv) : String :=
   s!"f{e.fid}#{e.nth}({",".intercalate (e.args.map showVal)})->{match e.res.err with | some x => s!"err{x}" | none => ",".intercalate (e.res.outs.map toString)}"
 
